@@ -21,9 +21,13 @@ def retry(text, ref):
 
 CHECKS = {
     # id: (category, technique, text, note, design_ref)
-    "C01": retry("M |= caps monitor (global, per-class, UNKNOWN, non-retryable, fresh counters per run) "
-                 "exhaustively for max_attempts 0..4 x per-class limits x UNKNOWN caps x both causes x 2 runs; "
-                 "real runners conform to M on every exported behaviour", "5/C01"),
+    "C01": ("model_checking",
+            "Apalache inductive invariant of CapsInd.tla (the loop's counters respect all four caps for arbitrary "
+            "max_attempts / per-class / UNKNOWN limits; mutants refuted; bound to RetryLoop.tla by the TLC "
+            "cross-check CapsIndX.tla) + " + RETRY_TECH,
+            "M |= caps monitor (global, per-class, UNKNOWN, non-retryable, fresh counters per run) "
+            "exhaustively for max_attempts 0..4 x per-class limits x UNKNOWN caps x both causes x 2 runs; "
+            "real runners conform to M on every exported behaviour", RETRY_NOTE, "5/C01"),
     "C02": retry("M |= deadline-envelope monitor for every ordering/equality of elapsed vs deadline at the "
                  "three clock-reading sites, sleeper overshoot and non-sleeping sleeper; plus a differential "
                  "of each behaviour under three wall-clock patterns", "5/C02"),
